@@ -331,6 +331,11 @@ type msmCase struct {
 	// -8 a trace level below Debug, 4 Warn, 8 Error, 12 above Error).  What is decoded
 	// does not depend on how much is logged.
 	Lvl int `json:"lvl,omitempty"`
+	// before the well-formed message is decoded the decoders are handed the same
+	// message with the multiple-message flag set and this many bytes cut off its end
+	// (one call per entry): an unfinished set of messages, a short read.  What a
+	// decoder made of an earlier input is no concern of the next one.
+	PreCuts []int `json:"truncated_flagged_copies_first,omitempty"`
 }
 
 var c04Levels = []int{0, -4, -8, 4, 8, 12, -12}
@@ -370,6 +375,19 @@ func execC04(c *child.Ctx, k msmCase, cj []byte) {
 			c.Count("earlier_results_rechecked", 1)
 		}
 	}()
+	for _, cut := range k.PreCuts {
+		pm := *k.M
+		pm.Multiple, pm.PadBytes = true, 0
+		pp := ref.EncodeMSM(&pm)
+		if cut <= 0 || cut >= len(pp)-3 || len(pp) > 1023 {
+			continue
+		}
+		func() {
+			defer func() { recover() }() // what becomes of the truncated copy is C07's business
+			decodeMSMBothWays(ref.Frame(pp[:len(pp)-cut]), msm7, slog.Level(k.Lvl))
+		}()
+		c.Count("truncated_flagged_predecessors", 1)
+	}
 	for _, pad := range k.Pads {
 		m := *k.M
 		m.PadBytes = pad
@@ -766,6 +784,11 @@ func monC04(c *child.Ctx, replay json.RawMessage) {
 		k := msmCase{M: m, Pads: pads}
 		if i%3 == 1 {
 			k.Lvl = c04Levels[(i/3)%len(c04Levels)]
+		}
+		if i%4 == 2 && len(m.Sigs) >= 2 {
+			// cut inside the signal data: after the first cell's worth, in the middle, one byte short
+			full := len(ref.EncodeMSM(m))
+			k.PreCuts = []int{1, r.Range(1, full/3+1), r.Range(1, full/2+1)}
 		}
 		cj := c.BeginV(k)
 		execC04(c, k, cj)
